@@ -349,6 +349,10 @@ def check(case):
 
   rendered = {}
   test.add_output_callbacks(lambda rec: json_cb(rec, False), lambda rec: json_cb(rec, True))
+  # metadata the station declares its test with: plain nested data, some of it under keys that happen to be called
+  # 'config' (the top-level 'config' entry is the framework's own configuration snapshot)
+  declared_md = {'station_info': {'config': 'rev-A', 'site': 'X', 'fixture': {'config': {'slots': 4}, 'ids': [1, 2]}}, 'operator': 'op7'}
+  test.descriptor.metadata.update(copy.deepcopy(declared_md))
   try:
     test.execute(test_start=tsarg)
   except Exception as e:  # pylint: disable=broad-except
@@ -400,6 +404,11 @@ def check(case):
     d = first_diff(bt['log_records'], [l._asdict() for l in rec.log_records], 'log_records')
     if d:
       r.bad('C10/cache-vs-fresh/log_records', d)
+  for k, v in declared_md.items():
+    if rec.metadata.get(k) != v:
+      r.bad('C10/metadata/record-differs-from-declaration', '%s: record %r, declared %r' % (k, rec.metadata.get(k), v))
+    elif (bt.get('metadata') or {}).get(k) != v:
+      r.bad('C10/metadata/view-differs-from-record', '%s: rendered %r, record holds %r' % (k, (bt.get('metadata') or {}).get(k), v))
   for k in ('dut_id', 'start_time_millis', 'end_time_millis', 'marginal'):
     if bt.get(k) != getattr(rec, k):
       r.bad('C10/record-field/%s' % k, '%r vs %r' % (bt.get(k), getattr(rec, k)))
